@@ -1,0 +1,35 @@
+//go:build verif
+
+package bitcoin_reader
+
+import (
+	"context"
+	"net"
+)
+
+// Hooks for the verification harness (build tag "verif"). They only add entry points to existing
+// unexported functions. Nothing here is compiled without the tag.
+
+// VerifRun runs the node over a caller supplied connection instead of dialing the address.
+func (n *BitcoinNode) VerifRun(ctx context.Context, connection net.Conn,
+	interrupt <-chan interface{}) error {
+
+	if err := n.mockConnect(ctx, connection); err != nil {
+		return err
+	}
+
+	return n.run(ctx, interrupt)
+}
+
+// VerifMarkStartupDelayComplete ends the startup delay now, which also triggers block
+// synchronization.
+func (m *NodeManager) VerifMarkStartupDelayComplete(ctx context.Context) {
+	m.markStartupDelayComplete(ctx)
+}
+
+// VerifSynchronizeBlocks runs one round of block synchronization in the calling goroutine.
+func (m *NodeManager) VerifSynchronizeBlocks(ctx context.Context,
+	interrupt <-chan interface{}) error {
+
+	return m.synchronizeBlocks(ctx, interrupt)
+}
